@@ -96,6 +96,7 @@ def exec_retry(case) -> Result:
     p, seq, cancel_at = case['p'], case['seq'], case.get('cancel_at')
     loop = _loop(case.get('i', 0))
     calls, made = [], {}
+    awaitables: list = []
     retry_on = None if p['retry_on'] is None else ((Listed2,) if p['retry_on'] == 'sub' else ((OSError, Listed) if p['retry_on'] == 'oserr' else (Listed,)))
 
     @retry(wait=p['wait'], retries=p['retries'], timeout=p['timeout'], retry_on=retry_on, backoff_factor=p['backoff'])
@@ -106,7 +107,15 @@ def exec_retry(case) -> Result:
         if oc['d']:
             await asyncio.sleep(oc['d'])
         if oc['k'] == 'ok':
-            made[k] = ('val', f'v{k}')
+            val: object = f'v{k}'
+            if oc.get('ret') == 'future':
+                val = loop.create_future()  # a handle on work that finishes later (or never): it is the VALUE, returned as it is
+            elif oc.get('ret') == 'task':
+                val = asyncio.ensure_future(asyncio.sleep(1000.0))
+            elif oc.get('ret') == 'coro':
+                val = asyncio.sleep(1000.0)  # a coroutine object handed back un-awaited
+            awaitables.append(val)
+            made[k] = ('val', val)
             return made[k][1]
         # (message texts as real services produce them: JSON bodies, format-like fragments)
         text = MSGS[oc['msg']] if oc.get('msg') is not None else None
@@ -141,6 +150,11 @@ def exec_retry(case) -> Result:
         res.violations.append({'prop': 'C19', 'clause': 'hang', 'mech': None, 'w': {'case': case, 'hang': str(h)}})
         return res
     finally:
+        for a_ in awaitables:
+            if asyncio.iscoroutine(a_):
+                a_.close()
+            elif isinstance(a_, asyncio.Future) and not a_.done():
+                a_.cancel()
         hard_close(loop)
     w = {'p': p, 'seq': seq, 'cancel_at': cancel_at, 'calls': calls, 'res': (out['res'][0], repr(out['res'][1])[:80]), 'end': out.get('end')}
 
@@ -231,7 +245,7 @@ class RetryFamily(Family):
                 c = rng.choice(['ok', 'listed', 'listed', 'listed', 'unlisted', 'overrun'])
                 # (with timeout=None a very long attempt is simply a long attempt)
                 seq.append({'k': 'ok' if c == 'overrun' else c, 'd': (p['timeout'] or 30.0) + rng.choice([0.5, 3.0]) if c == 'overrun' else rng.choice([0.0, 0.01, 0.3]), 'sub': rng.random() < 0.3,
-                            'cause': rng.choice([None, None, 'listed', 'unlisted']), 'falsy': rng.random() < 0.25, 'msg': rng.randrange(len(MSGS)) if rng.random() < 0.3 else None})
+                            'cause': rng.choice([None, None, 'listed', 'unlisted']), 'falsy': rng.random() < 0.25, 'msg': rng.randrange(len(MSGS)) if rng.random() < 0.3 else None, 'ret': rng.choice(['future', 'task', 'coro']) if rng.random() < 0.15 else None})
             i += 1
             yield {'family': self.name, 'i': i, 'p': p, 'seq': seq}
             starts, final, end = ref_timetable(p, seq)
@@ -477,6 +491,9 @@ def exec_sem(case) -> Result:
     peak: dict = {}
     viol = []
     probe_state = {'started': [], 'hold': None}
+    claimed: set = set()
+    spawned: dict = {}
+    runner: list = [None]
 
     def deco(scope):
         return retry(wait=case.get('wait', 0), retries=case.get('retries', 0), timeout=case.get('attempt_timeout') or 1000.0, semaphore_limit=L, semaphore_name=uid, semaphore_lax=lax, semaphore_scope=scope, semaphore_timeout=case['sem_timeout'])
@@ -494,6 +511,12 @@ def exec_sem(case) -> Result:
         if obs[i]['enter'] is None:  # first attempt: the slot is held from here across all retries
             obs[i]['enter'] = loop.time()
             obs[i]['inprog_at_enter'] = inprog[key]
+            # callers whose task is CREATED here, inside an execution that holds a slot (a background job started by the decorated
+            # function): they call at their own arrival instant like anybody else - where their task was born must not matter
+            for j_, cj in enumerate(callers):
+                if cj.get('via') == i and j_ not in claimed and runner[0] is not None:
+                    claimed.add(j_)
+                    spawned[j_] = asyncio.ensure_future(runner[0](j_, True))
         obs[i]['attempts'] = obs[i].get('attempts', 0) + 1
         try:
             await asyncio.sleep(c['dur'])
@@ -568,10 +591,15 @@ def exec_sem(case) -> Result:
         loop = asyncio.get_running_loop()
         base = loop.time()
 
-        async def starter(i):
+        async def starter(i, born_inside=False):
             c = callers[i]
             if c['at'] > 0:
                 await asyncio.sleep(c['at'] - (loop.time() - base))
+            if c.get('via') is not None and not born_inside:
+                if i in claimed:
+                    await spawned[i]  # its task was created inside the slot holder and makes the call
+                    return
+                claimed.add(i)  # the would-be parent has not entered by now: an ordinary caller
             t = asyncio.ensure_future(call(i))
             if c.get('cancel_at') is not None:
                 await asyncio.sleep(c['cancel_at'] - (loop.time() - base))
@@ -590,7 +618,9 @@ def exec_sem(case) -> Result:
                 obs[i]['fate'] = 'raise'
             except BaseException as ex:
                 obs[i]['fate'] = f'unexpected:{type(ex).__name__}:{ex}'[:160]
+        runner[0] = starter
         await asyncio.gather(*[starter(i) for i in idx])
+        runner[0] = None
         # black-box capacity probe per scope used: L fresh callers enter at once, the (L+1)-st waits
         for scope in sorted({callers[i]['scope'] for i in idx}):
             probe_state['started'] = []
@@ -631,6 +661,7 @@ def exec_sem(case) -> Result:
     for clause, d in viol:
         bad(clause, **d)
     res.counters['c20_cases'] = 1
+    res.counters['c20_callers_born_inside_a_slot_holder'] = len(spawned)
     res.counters['c20_callers'] = len(callers)
     res.counters['c20_capacity_probes'] = sum(len({callers[i]['scope'] for i in idx}) for idx in phases)
     if len(phases) > 1:
@@ -732,6 +763,12 @@ class SemFamily(Family):
                     extra.append({'scope': late_scope, 'at': round(0.25 + k * 3.1e-3, 6), 'dur': round(0.5 + k * 1.9e-4, 6)})
                 callers = callers + extra
                 ncall = len(callers)
+            if j % 4 == 1:
+                # some callers are background jobs started by an earlier caller of the same scope while that one holds its slot
+                for q, cq in enumerate(callers):
+                    earlier = [q0 for q0, c0 in enumerate(callers) if c0['scope'] == cq['scope'] and c0['at'] + 1e-3 < cq['at'] and c0.get('via') is None]
+                    if earlier and rng.random() < 0.4:
+                        cq['via'] = rng.choice(earlier)
             base = {'family': self.name, 'limit': L, 'lax': lax, 'sem_timeout': sem_to, 'callers': callers}
             if j % 3 == 2 and rng.random() < 0.5:
                 base['attempt_timeout'] = 0.4513  # (an odd value: no ties with arrival + acquisition-timeout sums) bodies of 0.7 s and 3 s are cut off (and unwind), 0.2 s ones are not
@@ -773,7 +810,7 @@ class SemFamily(Family):
                     yield dict(base, i=i, callers=cs, probe_due=rng.random() < 0.5)
             # successive event loops in one process (same semaphore names)
             if j % 5 == 0:
-                cs = [dict(c) for c in callers] + [dict(c) for c in callers]
+                cs = [dict(c) for c in callers] + [dict(c, via=c['via'] + ncall) if c.get('via') is not None else dict(c) for c in callers]
                 i += 1
                 yield dict(base, i=i, callers=cs, phases=[list(range(ncall)), list(range(ncall, 2 * ncall))])
 
